@@ -23,16 +23,18 @@ def choose_scenarios(seed, tier):
     mechs = sorted(m for m in c14gen.MECHS if m != "afterfunc")
     taints = sorted(c14gen.TAINTS)
     rnd = vlib.lcg(seed * 104729 + 7)
+    specials = [("special", n, "-", e) for n in sorted(c14gen.load_specials(c14gen.SPECIAL13_DIR)) for e in ("call", "go")]
     if tier != "quick":
         allsc = [(m, t, "self", e) for e in ("call", "go") for m in mechs for t in taints]
         off = rnd(len(taints))
         for k, m in enumerate(mechs):
             for j in range(4):
                 allsc.append((m, taints[(off + k * 3 + j * 5) % len(taints)], ("child", "latechild")[j % 2], ("call", "go")[(k + j) % 2]))
+        allsc = specials + allsc
         n = 330
         return [allsc[i:i + n] for i in range(0, len(allsc), n)]
-    sel = []
-    seen = set()
+    sel = list(specials)
+    seen = set(specials)
 
     def add(*sc):
         if sc not in seen:
@@ -62,11 +64,17 @@ def write_program(d, name, src):
 
 
 BUILTIN_TAINTS = ("copy", "copybytes", "append")
+# taint steps whose silence does not depend on the sharing mechanism: keyed by the taint step first
+TAINT_FIRST = BUILTIN_TAINTS + ("idcall",)
 
 
 def key_of(desc):
     """taint steps through builtin calls are silent whatever the sharing mechanism: keyed by the taint step first"""
-    if desc[1] in BUILTIN_TAINTS:
+    if desc[0] == "special":
+        if desc[1] == "id-return":
+            return "silent-flow:taint=idcall:special:%s" % desc[3]
+        return "silent-flow:mech=special-%s:%s" % (desc[1], desc[3])
+    if desc[1] in TAINT_FIRST:
         return "silent-flow:taint=%s:mech=%s:tgt=%s:%s" % (desc[1], desc[0], desc[2], desc[3])
     return "silent-flow:mech=%s:taint=%s:tgt=%s:%s" % (desc[0], desc[1], desc[2], desc[3])
 
